@@ -133,6 +133,17 @@ def run(tier, seed=0, shard=(0, 1)):
                 if (got.dom, got.cod) != (want.dom, want.cod) or not numpy.allclose(got.array, want.array):
                     rep.fail('C10:Tensor.swap', 'Tensor.swap(%r, %r) does not move the left block past the right one' % (A, B),
                              'tensor: Tensor.swap(%r, %r)' % (A, B))
+        # the zx class also takes widths as plain ints: same diagram as with PRO types
+        if cname == 'zx' and shard[0] == 0:
+            for l, r_ in itertools.product(range(4), repeat=2):
+                for al, ar in ((l, r_), (zx.PRO(l), r_), (l, zx.PRO(r_))):
+                    inp = 'zx: swap(%r, %r)' % (al, ar)
+                    rep.case(inp)
+                    got = common.outcome(cls.swap, al, ar)
+                    want = common.outcome(cls.swap, zx.PRO(l), zx.PRO(r_))
+                    if got[0] != 'ok' or want[0] != 'ok' or got[1] != want[1] \
+                            or (got[1].dom, got[1].cod) != (zx.PRO(l + r_), zx.PRO(l + r_)):
+                        rep.fail('C10:swap.int_widths', 'swap(%r, %r) = %r, expected %r' % (al, ar, got, want), inp)
         # refusals
         if shard[0] == 0:
             dom3 = mk(*[atoms[k % len(atoms)] for k in range(3)])
